@@ -152,6 +152,17 @@ Definition decode_capabilities (c : N) : list string :=
    else if t =? 0x04 then ["threshold_read_and_setable"]
    else if t =? 0x0c then ["threshold_fixed"] else []).
 
+(* _from_data, byte 11: the seven "if initialization & mask: append(name)" statements *)
+Definition decode_initialization (initialization : N) : list string :=
+  flag initialization 0x40 "scanning" ++ flag initialization 0x20 "events" ++
+  flag initialization 0x10 "thresholds" ++ flag initialization 0x08 "hysteresis" ++
+  flag initialization 0x04 "type" ++
+  flag initialization 0x02 "default_event_generation" ++
+  flag initialization 0x01 "default_scanning".
+(* _from_data, byte 31: the three "if analog_characteristics & mask" statements *)
+Definition decode_analog_characteristic (ac : N) : list string :=
+  flag ac 0x01 "nominal_reading" ++ flag ac 0x02 "normal_max" ++ flag ac 0x04 "normal_min".
+
 Record full := mkFull {
   f_key : key; f_ent : ent;
   f_initialization : list string; f_capabilities : list string;
@@ -177,11 +188,7 @@ Definition full_from_data (data : list N) : res full :=
   do '(eb, buffer) <- pop_slice 2 buffer;
   do e <- entity eb;
   do '(initialization, buffer) <- pop_uint 1 buffer;
-  let init := flag initialization 0x40 "scanning" ++ flag initialization 0x20 "events" ++
-              flag initialization 0x10 "thresholds" ++ flag initialization 0x08 "hysteresis" ++
-              flag initialization 0x04 "type" ++
-              flag initialization 0x02 "default_event_generation" ++
-              flag initialization 0x01 "default_scanning" in
+  let init := decode_initialization initialization in
   do '(capb, buffer) <- pop_uint 1 buffer;
   let caps := decode_capabilities capb in
   do '(stc, buffer) <- pop_uint 1 buffer;
@@ -214,8 +221,7 @@ Definition full_from_data (data : list N) : res full :=
   let k2 := convert_complement (N.shiftr (N.land rexp_bexp 0xf0) 4) 4 in
   let k1 := convert_complement (N.land rexp_bexp 0x0f) 4 in
   do '(ac, buffer) <- pop_uint 1 buffer;
-  let achar := flag ac 0x01 "nominal_reading" ++ flag ac 0x02 "normal_max" ++
-               flag ac 0x04 "normal_min" in
+  let achar := decode_analog_characteristic ac in
   do '(nominal, buffer) <- pop_uint 1 buffer;
   do '(nmax, buffer) <- pop_uint 1 buffer;
   do '(nmin, buffer) <- pop_uint 1 buffer;
